@@ -7,7 +7,7 @@ use crate::fq::BuildCase;
 use crate::gens::{case_in_cell, Cell, Force};
 use proptest::prelude::*;
 use refmodel::tables::*;
-use serde_json::Value;
+use serde_json::{json, Value};
 
 pub fn check(bc: &BuildCase, obs: &mut Obs) -> Result<(), Fail> {
     let built = match do_build(bc)? {
@@ -94,9 +94,37 @@ pub fn check_text(text: &str, vals: &[bool], n: usize, bc: &BuildCase) -> Result
     Ok(())
 }
 
+/// terminal- and locale-related environments of the environment phases (None = variable removed)
+fn env_phase(phase: u64) -> Vec<(&'static str, Option<&'static str>)> {
+    match phase {
+        1 => vec![("COLUMNS", Some("200")), ("LINES", Some("60")), ("TERM", Some("xterm-256color")), ("LANG", Some("fr_FR.ISO-8859-1"))],
+        2 => vec![("COLUMNS", Some("27")), ("LINES", Some("5")), ("TERM", Some("dumb")), ("NO_COLOR", Some("1")), ("LANG", Some("en_US.UTF-8")), ("LC_ALL", Some("ja_JP.eucJP"))],
+        3 => vec![("COLUMNS", None), ("LINES", None), ("LC_ALL", None), ("NO_COLOR", None), ("LANG", Some("C")), ("LC_CTYPE", Some("de_DE.ISO-8859-15@euro"))],
+        _ => vec![("COLUMNS", None), ("LINES", None), ("LANG", None), ("LC_ALL", None), ("LC_CTYPE", None), ("NO_COLOR", None)],
+    }
+}
+
+/// only called while no worker thread runs (between the parts of a run, or in a replay)
+fn set_env_phase(phase: u64) {
+    for (k, v) in env_phase(phase) {
+        match v {
+            Some(v) => std::env::set_var(k, v),
+            None => std::env::remove_var(k),
+        }
+    }
+}
+
 pub fn replay(_e: &Engine, case: &Value, obs: &mut Obs) -> Result<(), Fail> {
     let b = BuildCase::from_json(case).ok_or_else(|| Fail { sig: "bad_replay".into(), msg: "cannot parse case".into() })?;
-    check(&b, obs)
+    let phase = case.get("env_phase").and_then(|x| x.as_u64()).unwrap_or(0);
+    if phase != 0 {
+        set_env_phase(phase);
+    }
+    let r = check(&b, obs);
+    if phase != 0 {
+        set_env_phase(0);
+    }
+    r
 }
 
 pub fn run(e: &'static Engine) {
@@ -126,25 +154,16 @@ pub fn run(e: &'static Engine) {
     // generated: random cells, and steered matrices (whole rows/columns of one value with isolated exceptions at
     // word-size boundaries, run-length patterns, uniform rectangles), so that a renderer that packs, chunks or
     // run-length-encodes rows is driven through its uniform-chunk paths
-    // ambient environment: the rendering is a function of the matrix only. The generated part below runs in three
-    // phases under different terminal-related environment variables (set between phases, while no worker thread runs)
-    for (phase, envs) in [
-        (0u64, vec![("COLUMNS", None), ("LINES", None)]),
-        (1, vec![("COLUMNS", Some("200")), ("LINES", Some("60")), ("TERM", Some("xterm-256color"))]),
-        (2, vec![("COLUMNS", Some("27")), ("LINES", Some("5")), ("TERM", Some("dumb")), ("NO_COLOR", Some("1"))]),
-    ] {
-        for (k, v) in &envs {
-            match v {
-                Some(v) => std::env::set_var(k, v),
-                None => std::env::remove_var(k),
-            }
-        }
+    // ambient environment: the rendering is a function of the matrix only. The generated part below runs in four
+    // phases under different terminal- and locale-related environment variables (set between phases, while no worker thread runs)
+    for phase in 0u64..4 {
+        set_env_phase(phase);
         let per: u32 = e.tier.pick(1600, 16000);
         let mut jobs: Vec<Job> = Vec::new();
         for _ in 0..16 {
             jobs.push(Box::new(move |jc: &mut JobCtx| {
                 let strat = crate::gens::any_case();
-                jc.run_prop((8 + phase) << 20, &strat, per / 16, |(c, _, _)| c.to_json(), |(c, _, _), o| {
+                jc.run_prop((8 + phase) << 20, &strat, per / 16, move |(c, _, _)| { let mut j = c.to_json(); j["env_phase"] = json!(phase); j }, |(c, _, _), o| {
                     o.label(&format!("part:environment_phase_{}", phase));
                     check(c, o)
                 });
@@ -152,8 +171,7 @@ pub fn run(e: &'static Engine) {
         }
         e.par(jobs);
     }
-    std::env::remove_var("COLUMNS");
-    std::env::remove_var("LINES");
+    set_env_phase(0);
     let total: u32 = e.tier.pick(32000, 320000);
     let shards = e.tier.pick(32u32, 96);
     let mut jobs: Vec<Job> = Vec::new();
